@@ -113,6 +113,35 @@ func (t *T) emit(term string, e *env, ind string, k K) string {
 // store assigns a translated value to a Go lvalue (local variable or state place).
 func (t *T) store(lhs ast.Expr, val, gty string, e *env, ind string, k K) string {
 	lhs = unparen(lhs)
+	if ae := t.assignEmits[canon(lhs)]; ae != nil {
+		term := substArgs(ae.Term, func(i int) string {
+			if i == 0 {
+				if val == "" {
+					t.stopf(lhs, "internal: $0 of an assignment action without translated value")
+				}
+				return val
+			}
+			ix, ok := lhs.(*ast.IndexExpr)
+			if !ok || i != 1 {
+				t.stopf(lhs, "assignment action: $%d is not available for %q", i, canon(lhs))
+			}
+			it, _ := t.expr(ix.Index, e)
+			return it
+		})
+		return t.emit(t.subst(lhs, term, e), e, ind, k)
+	}
+	if ix, ok := lhs.(*ast.IndexExpr); ok {
+		if _, isState := t.stIndex[canon(lhs)]; !isState {
+			mt, mg := t.expr(ix.X, e)
+			if m := t.maps[mg]; m != nil {
+				it, ig := t.expr(ix.Index, e)
+				if ig != m.Key || (gty != "" && gty != m.Elem) {
+					t.stopf(lhs, "store of a %q at a key %q into a map %s", gty, ig, m.Type)
+				}
+				return t.store(ix.X, "("+m.Set+" "+mt+" "+it+" "+val+")", mg, e, ind, k)
+			}
+		}
+	}
 	e2 := e.clone()
 	if i, ok := t.stIndex[canon(lhs)]; ok {
 		if gty != "" && gty != t.stTypes[i] {
@@ -251,8 +280,13 @@ func isBlank(x ast.Expr) bool {
 // assign handles `lhs... = rhs...` and `lhs... := rhs...` (parallel assignment).
 func (t *T) assign(at ast.Node, lhs, rhs []ast.Expr, e *env, ind string, k K) string {
 	var vals, gtys []string
-	pre := ""
 	fromTable := false
+	if len(lhs) == 1 && len(rhs) == 1 {
+		if ae := t.assignEmits[canon(lhs[0])]; ae != nil && !strings.Contains(ae.Term, "$0") {
+			// the action does not mention the value: the right-hand side is not translated
+			return t.store(lhs[0], "", "", e, ind, k)
+		}
+	}
 	if len(rhs) == 1 {
 		r := unparen(rhs[0])
 		if c, ok := r.(*ast.CallExpr); ok {
@@ -270,6 +304,16 @@ func (t *T) assign(at ast.Node, lhs, rhs []ast.Expr, e *env, ind string, k K) st
 					return k(e, ind)
 				}
 			}
+			if cs := t.calls[fkey]; cs != nil && cs.Emit != "" && t.lookupAtom(canon(c)) == nil {
+				// a call with an effect: the action first, then the values
+				term := t.subst(c, substArgs(cs.Emit, func(i int) string { return t.argTerm(c, i, e) }), e)
+				return t.emit(term, e, ind, func(e2 *env, ind2 string) string {
+					t.allowEmit = true
+					vs, gs := t.call(c, e2)
+					t.allowEmit = false
+					return t.bindValues(at, lhs, append([]string{}, vs...), append([]string{}, gs...), e2, ind2, k)
+				})
+			}
 			vals, gtys = t.call(c, e)
 			vals, gtys = append([]string{}, vals...), append([]string{}, gtys...)
 			fromTable = true
@@ -278,14 +322,24 @@ func (t *T) assign(at ast.Node, lhs, rhs []ast.Expr, e *env, ind string, k K) st
 					vals[0], gtys[0] = "(EK "+vals[0]+")", "gerr"
 				}
 			}
+		} else if ix, ok := r.(*ast.IndexExpr); ok && len(lhs) == 2 && t.lookupAtom(canon(r)) == nil && t.isMapIndex(ix, e) {
+			// v, ok := m[k] on a modelled map
+			mt, mg := t.expr(ix.X, e)
+			m := t.maps[mg]
+			it, _ := t.expr(ix.Index, e)
+			vals, gtys = []string{"(" + m.Get + " " + mt + " " + it + ")", "(" + m.Has + " " + mt + " " + it + ")"}, []string{m.GetType, "bool"}
+			fromTable = true
 		} else if len(lhs) > 1 {
 			// comma-ok forms through a multi-valued atom
 			a := t.lookupAtom(canon(r))
 			if a == nil || len(a.Terms) != len(lhs) {
 				t.stopf(at, "multi-valued right-hand side %q is not a %d-valued atom", canon(r), len(lhs))
 			}
-			t.checkAtomLocals(r)
+			t.checkAtomLocals(r, a.Terms...)
 			vals, gtys = append([]string{}, a.Terms...), append([]string{}, a.Types...)
+			for i := range vals {
+				vals[i] = t.subst(r, vals[i], e)
+			}
 			fromTable = true
 		}
 	}
@@ -294,23 +348,66 @@ func (t *T) assign(at ast.Node, lhs, rhs []ast.Expr, e *env, ind string, k K) st
 			t.stopf(at, "assignment of %d values to %d places", len(rhs), len(lhs))
 		}
 		for i := range rhs {
+			if ae := t.assignEmits[canon(lhs[i])]; ae != nil && !strings.Contains(ae.Term, "$0") {
+				// the action does not mention the value: the right-hand side is not translated
+				vals, gtys = append(vals, ""), append(gtys, "")
+				continue
+			}
 			v, g := t.exprAs(rhs[i], t.lhsType(lhs[i]), e)
 			vals = append(vals, v)
 			gtys = append(gtys, g)
 		}
 	}
+	if len(lhs) > 1 && !fromTable {
+		return t.bindValuesParallel(at, lhs, vals, gtys, e, ind, k)
+	}
+	return t.bindValues(at, lhs, vals, gtys, e, ind, k)
+}
+
+func (t *T) isMapIndex(ix *ast.IndexExpr, e *env) bool {
+	if _, ok := t.p.Info.TypeOf(ix.X).Underlying().(*types.Map); !ok {
+		return false
+	}
+	key := canon(ix.X)
+	if _, ok := t.stIndex[key]; ok {
+		_, g := t.expr(ix.X, e)
+		return t.maps[g] != nil
+	}
+	if id, ok := unparen(ix.X).(*ast.Ident); ok {
+		if b := e.vars[t.p.Info.Uses[id]]; b != nil {
+			return t.maps[b.gty] != nil
+		}
+	}
+	return false
+}
+
+// bindValues stores already translated values into the places, left to right.
+func (t *T) bindValues(at ast.Node, lhs []ast.Expr, vals, gtys []string, e *env, ind string, k K) string {
+	return t.bindValuesOpt(at, lhs, vals, gtys, false, e, ind, k)
+}
+
+func (t *T) bindValuesParallel(at ast.Node, lhs []ast.Expr, vals, gtys []string, e *env, ind string, k K) string {
+	return t.bindValuesOpt(at, lhs, vals, gtys, true, e, ind, k)
+}
+
+func (t *T) bindValuesOpt(at ast.Node, lhs []ast.Expr, vals, gtys []string, parallel bool, e *env, ind string, k K) string {
+	pre := ""
 	if len(vals) != len(lhs) {
 		t.stopf(at, "assignment of %d values to %d places", len(vals), len(lhs))
 	}
 	for len(gtys) < len(vals) {
 		gtys = append(gtys, "")
 	}
+	fromTable := !parallel
 	// parallel assignment: when several places are written and a later value mentions an earlier place,
 	// the values are computed first
 	if len(lhs) > 1 && !fromTable {
 		tmp := make([]string, len(vals))
 		for i := range vals {
 			if isBlank(lhs[i]) {
+				continue
+			}
+			if vals[i] == "" {
 				continue
 			}
 			tmp[i] = t.fresh("tmp")
@@ -378,13 +475,31 @@ func (t *T) exprStmt(x *ast.ExprStmt, e *env, ind string, k K) string {
 	if t.ignore[fkey] {
 		return k(e, ind)
 	}
-	if m := t.emits[fkey]; m != nil {
-		t.checkAtomLocals(c.Fun)
-		term := substArgs(m.Term, func(i int) string { return t.argTerm(c, i, e) })
+	m := t.emits[canon(c)] // the whole call text first, then the callee
+	if m == nil {
+		m = t.emits[fkey]
+	}
+	if m != nil {
+		t.checkAtomLocals(c.Fun, m.Term)
+		term := t.subst(c, substArgs(m.Term, func(i int) string { return t.argTerm(c, i, e) }), e)
 		return t.emit(term, e, ind, k)
 	}
 	if si, ok := t.streamIdx[fkey]; ok {
 		return t.popStream(x, si, nil, e, ind, k)
+	}
+	if cs := t.calls[fkey]; cs != nil && cs.Emit != "" {
+		term := t.subst(c, substArgs(cs.Emit, func(i int) string { return t.argTerm(c, i, e) }), e)
+		return t.emit(term, e, ind, k)
+	}
+	if fkey == "delete" && len(c.Args) == 2 {
+		mt, mg := t.expr(c.Args[0], e)
+		if m := t.maps[mg]; m != nil {
+			kt, kg := t.expr(c.Args[1], e)
+			if kg != m.Key {
+				t.stopf(x, "delete with a key of Gallina type %q from a map with keys %q", kg, m.Key)
+			}
+			return t.store(c.Args[0], "("+m.Del+" "+mt+" "+kt+")", mg, e, ind, k)
+		}
 	}
 	t.stopf(x, "call statement %q is not in the spec (ignore / emits / streams)", canon(c))
 	return ""
@@ -467,15 +582,65 @@ func (t *T) chain(at ast.Node, arms []arm, elseBody []ast.Stmt, esc bool, e *env
 	return t.join(at, slots, e, ind, k, build)
 }
 
+// hoistOracles: oracle (stream) calls inside a condition are taken from their scripts before the condition is
+// evaluated, left to right; only in conditions without && / || (every call is then evaluated exactly once).
+func (t *T) hoistOracles(cond ast.Expr, e *env, ind string) (string, *env) {
+	var calls []*ast.CallExpr
+	shortCircuit := false
+	ast.Inspect(cond, func(n ast.Node) bool {
+		switch y := n.(type) {
+		case *ast.BinaryExpr:
+			if y.Op == token.LAND || y.Op == token.LOR {
+				shortCircuit = true
+			}
+		case *ast.CallExpr:
+			if t.lookupAtom(canon(y)) == nil {
+				if _, ok := t.streamIdx[canon(y.Fun)]; ok {
+					calls = append(calls, y)
+					return false
+				}
+			}
+		}
+		return true
+	})
+	if len(calls) == 0 {
+		return "", e
+	}
+	if shortCircuit {
+		t.stopf(cond, "oracle call inside a condition with && or ||")
+	}
+	pre := ""
+	for _, c := range calls {
+		si := t.streamIdx[canon(c.Fun)]
+		var sv *StreamVar
+		for _, s := range t.tg.Stream {
+			if t.streamIdx[s.Call] == si {
+				sv = s
+			}
+		}
+		if len(sv.Results) != 1 {
+			t.stopf(c, "oracle %s with %d results used as a value", sv.Call, len(sv.Results))
+		}
+		x := t.fresh("o_" + sanitize(sv.Name))
+		rest := t.fresh(sv.Name)
+		pre += ind + "let '(" + x + ", " + rest + ") := pop (" + sv.Default + ") " + e.st[si] + " in\n"
+		e = e.clone()
+		e.st[si] = rest
+		t.hoisted[c] = [2]string{x, sv.Results[0]}
+	}
+	return pre, e
+}
+
 func (t *T) ifStmt(x *ast.IfStmt, e *env, ind string, k K) string {
 	core := func(e *env, ind string) string {
+		pre, e := t.hoistOracles(x.Cond, e, ind)
 		c := t.cond(x.Cond, e)
 		var elseBody []ast.Stmt
 		if x.Else != nil {
 			elseBody = []ast.Stmt{x.Else}
 		}
 		esc := escapes(x.Body) || escapes(x.Else)
-		return t.chain(x, []arm{{c, x.Body.List}}, elseBody, esc, e, ind, k)
+		return pre + t.chain(x, []arm{{c, x.Body.List}}, elseBody, esc, e, ind, k)
 	}
 	if x.Init != nil {
 		return t.stmt(x.Init, e, ind, core)
@@ -708,6 +873,9 @@ func (t *T) loopDef(e *env, ind string, k K, structArg, structType, zeroPat, suc
 		}
 	}
 	if e.acts != "" {
+		if t.used["acts"] == 0 {
+			t.used["acts"] = 1
+		}
 		formals = append(formals, Param{"acts", "list " + t.tg.ActionType})
 		args = append(args, e.acts)
 		inner.acts = "acts"
@@ -733,6 +901,7 @@ func (t *T) loopDef(e *env, ind string, k K, structArg, structType, zeroPat, suc
 		inner.vars[o].name = fn
 		car = append(car, carried{slot{kind: 0, obj: o}, b.gty})
 	}
+	outer := inner.clone() // what follows the loop does not see the loop's own variables
 	bind(inner)
 	// the recursive call at `continue` / end of body
 	again := func(e2 *env, ind2 string) string {
@@ -764,7 +933,7 @@ func (t *T) loopDef(e *env, ind string, k K, structArg, structType, zeroPat, suc
 	}
 	t.brk = append(t.brk, k)
 	t.cont = append(t.cont, again)
-	after := k(inner.clone(), "      ")
+	after := k(outer, "      ")
 	t.loopDepth++
 	bodyText := body(inner.clone(), "      ", again)
 	t.loopDepth--
@@ -782,7 +951,7 @@ func (t *T) loopDef(e *env, ind string, k K, structArg, structType, zeroPat, suc
 // for i := lo; i < hi; i++ { body }   (also: for i := lo; i == lo || i < hi; i++, whose first iteration always runs)
 // with hi loop-invariant and i not assigned in the body: recursion on fuel = hi - lo (resp. max 1 (hi - lo)).
 func (t *T) forStmt(x *ast.ForStmt, e *env, ind string, k K) string {
-	const shape = "for loop: only `for i := lo; i < hi; i++` and `for i := lo; i == lo || i < hi; i++` are supported"
+	const shape = "for loop: only `for i := lo; i < hi; i++`, `for i := lo; i <= hi; i++` and `for i := lo; i == lo || i < hi; i++` are supported"
 	init, ok := x.Init.(*ast.AssignStmt)
 	if !ok || init.Tok != token.DEFINE || len(init.Lhs) != 1 || len(init.Rhs) != 1 || x.Cond == nil {
 		t.stopf(x, shape)
@@ -817,7 +986,7 @@ func (t *T) forStmt(x *ast.ForStmt, e *env, ind string, k K) string {
 		atLeastOnce = true
 		cond = rest
 	}
-	if cond.Op != token.LSS || !isVar(cond.X) {
+	if (cond.Op != token.LSS && cond.Op != token.LEQ) || !isVar(cond.X) || (cond.Op == token.LEQ && atLeastOnce) {
 		t.stopf(x, shape)
 	}
 	lo, g1 := t.expr(init.Rhs[0], e)
@@ -827,6 +996,10 @@ func (t *T) forStmt(x *ast.ForStmt, e *env, ind string, k K) string {
 	}
 	t.checkInvariant(x, x.Body, iobj, cond.Y)
 	n := "(" + hi + " - " + lo + ")"
+	if cond.Op == token.LEQ {
+		// i <= hi: one more pass (hi + 1 cannot overflow in Z; Go's i++ past MaxInt is not modelled)
+		n = "(" + hi + " - " + lo + " + 1)"
+	}
 	if atLeastOnce {
 		n = "(Z.max 1 " + n + ")"
 	}
@@ -876,10 +1049,40 @@ func (t *T) rangeStmt(x *ast.RangeStmt, e *env, ind string, k K) string {
 		t.checkInvariant(x, x.Body, t.p.Info.Defs[kid], nil)
 		return t.counterLoop(x.Body.List, t.p.Info.Defs[kid], "0", fmt.Sprintf("%d%%nat", arr.Len()), e, ind, k)
 	}
-	if x.Key != nil && !isBlank(x.Key) {
-		t.stopf(x, "range loop with an index variable")
-	}
 	lt, lg := t.expr(x.X, e)
+	_, goMap := t.p.Info.TypeOf(x.X).Underlying().(*types.Map)
+	if m := t.maps[lg]; m != nil || (goMap && strings.HasPrefix(lg, "list (") && x.Key != nil && !isBlank(x.Key)) {
+		// range over a map: a snapshot list of (key, value) pairs
+		elem := strings.TrimSuffix(strings.TrimPrefix(lg, "list ("), ")")
+		kty, vty := "", ""
+		if m != nil {
+			ev := m.Elem
+			if strings.ContainsAny(ev, " ") {
+				ev = "(" + ev + ")"
+			}
+			lt, elem, kty, vty = "("+m.Items+" "+lt+")", m.Key+" * "+ev, m.Key, m.Elem
+		} else {
+			parts := strings.SplitN(elem, " * ", 2)
+			if len(parts) != 2 {
+				t.stopf(x, "range over a map modelled as %q: need a list of pairs", lg)
+			}
+			kty, vty = parts[0], parts[1]
+		}
+		it := t.fresh("it")
+		lname := t.fresh("l")
+		return t.loopDef(e, ind, k, lname, "list ("+elem+")", "[]", it+" :: "+lname+"'", lname+"'",
+			nil, []string{lt},
+			func(e2 *env) []string { return nil },
+			func(inner *env) {
+				if x.Key != nil && !isBlank(x.Key) {
+					inner.declare(t.p.Info.Defs[x.Key.(*ast.Ident)], &binding{name: "(fst " + it + ")", gty: kty, set: true})
+				}
+				if x.Value != nil && !isBlank(x.Value) {
+					inner.declare(t.p.Info.Defs[x.Value.(*ast.Ident)], &binding{name: "(snd " + it + ")", gty: vty, set: true})
+				}
+			},
+			func(inner *env, ind2 string, again K) string { return t.block(x.Body.List, inner, ind2, again) })
+	}
 	if !strings.HasPrefix(lg, "list ") {
 		t.stopf(x, "range over %q of Gallina type %q (need a list)", canon(x.X), lg)
 	}
@@ -887,13 +1090,7 @@ func (t *T) rangeStmt(x *ast.RangeStmt, e *env, ind string, k K) string {
 	if strings.HasPrefix(elem, "(") && strings.HasSuffix(elem, ")") {
 		elem = elem[1 : len(elem)-1]
 	}
-	objs, texts := t.assignedIn(x.Body)
-	_ = objs
-	for _, s := range texts {
-		if s == canon(x.X) {
-			t.stopf(x, "range loop: the body assigns the ranged expression")
-		}
-	}
+	// (the ranged expression is evaluated once: the body may assign it)
 	var vobj types.Object
 	vname := "_"
 	if x.Value != nil && !isBlank(x.Value) {
@@ -901,10 +1098,30 @@ func (t *T) rangeStmt(x *ast.RangeStmt, e *env, ind string, k K) string {
 		vname = t.fresh("v_" + vobj.Name())
 	}
 	lname := t.fresh("l")
+	var kobj types.Object
+	var extra []Param
+	extraArgs := []string{lt}
+	kname := ""
+	if x.Key != nil && !isBlank(x.Key) {
+		// index variable: a counter carried beside the list
+		kobj = t.p.Info.Defs[x.Key.(*ast.Ident)]
+		t.checkInvariant(x, x.Body, kobj, nil)
+		kname = t.fresh("c_" + kobj.Name())
+		extra = []Param{{kname, "Z"}}
+		extraArgs = []string{lt, "0"}
+	}
 	return t.loopDef(e, ind, k, lname, "list ("+elem+")", "[]", vname+" :: "+lname+"'", lname+"'",
-		nil, []string{lt},
-		func(e2 *env) []string { return nil },
+		extra, extraArgs,
+		func(e2 *env) []string {
+			if kobj != nil {
+				return []string{"(" + kname + " + 1)"}
+			}
+			return nil
+		},
 		func(inner *env) {
+			if kobj != nil {
+				inner.declare(kobj, &binding{name: kname, gty: "Z", set: true})
+			}
 			if vobj != nil {
 				inner.declare(vobj, &binding{name: vname, gty: elem, set: true})
 			}
